@@ -2,7 +2,8 @@
    okf : nat -> bool says whether the n-th sink call (write of a non-empty slice, or flush) succeeds; it is universally quantified.
    The sink log records failed attempts as SXW / SXF; `failed O` says whether the operations O contain one. *)
 From EC Require Import Base Model.Input Model.Editor Model.History Model.Sink Model.Writer Model.Cli Spec.IdealEditor Spec.Session
-  Proofs.SinkOk Proofs.FlushProofs Proofs.FaultProofs Proofs.ClassProofs Proofs.SafetyProofs Proofs.SessionProofs Proofs.RecoveryProofs.
+  Proofs.SinkOk Proofs.FlushProofs Proofs.FaultProofs Proofs.ClassProofs Proofs.SafetyProofs Proofs.SessionProofs Proofs.RecoveryProofs
+  Proofs.DecoderProofs.
 
 Definition reports_failures (f : M cli unit) : Prop :=
   forall s r s', f s = (r, s') -> exists O, out (sk s') = out (sk s) ++ O /\
@@ -56,6 +57,13 @@ Theorem C14_usable_again : forall feats cs handler, cmdset_ok cs -> forall s, Cl
     Forall (fun x => x = Ok tt) rs /\ SRel (cap (ed s)) (hcap (hist s)) s' a' /\ hcalls s' = hcalls s ++ calls.
 Proof. exact usable_again. Qed.
 Print Assumptions C14_usable_again.
+
+(* "later input is decoded normally", in full: whatever failed and whenever, the decoder inside the Cli is where the bytes fed so far
+   put it - the failures leave no trace in it (no hypothesis on sink, command set, handler, state or results) *)
+Theorem C14_later_input_decoded : forall okf feats cs handler calls s,
+  ig (fst (api_run okf feats cs handler s calls)) = fst (runa (ig s) (fed_bytes calls)).
+Proof. exact cli_decoder. Qed.
+Print Assumptions C14_later_input_decoded.
 
 (* non-vacuity: `echo a` Enter with the 3rd sink call of the Enter failing: Err, the line is cleared (not the tokenised buffer) *)
 Example C14_nonvacuous :
